@@ -219,6 +219,33 @@ theorem verify_total (v : Verifier) (p : Package) : (verifySignatureS md5 sha1 s
   · rw [e]; rfl
   · rw [e]; exact runSteps_not_panic v _ _ [] plan
 
+/-! ### with `signature::echo_signature` in place (AUDIT2 a10)
+
+`verifySignatureS` leaves the `echo_signature` call in front of every `verifier.verify` out. `verifySignatureSE`
+(Model/Verify.lean) has it in, slice indexing explicit. -/
+
+/-- **the echo calls change nothing and cannot panic**: `verify_signature` with them = without them (result and consult
+log); the Debug logger is handed, per consult and in call order, the signature's length and its first
+`Gen.echoPrefixLen` bytes (the bound `len.min(N)` scraped from the source) -/
+theorem verify_echo_eq (v : Verifier) (p : Package) :
+    verifySignatureSE md5 sha1 sha256 b64 v p =
+      ((verifySignatureS md5 sha1 sha256 b64 v p).1, (verifySignatureS md5 sha1 sha256 b64 v p).2,
+        (verifySignatureS md5 sha1 sha256 b64 v p).2.map echoOf) :=
+  verifySignatureSE_eq md5 sha1 sha256 b64 v p
+
+/-- `echo_signature` on ANY byte string is a value: `&signature[..signature.len().min(N)]` is in range -/
+theorem echo_total (sig : Bytes) : echoSignature sig = .ok (sig.length, sig.take Gen.echoPrefixLen) :=
+  echoSignature_eq sig
+
+/-- **never a panic, echo calls included** -/
+theorem verify_total_echo (v : Verifier) (p : Package) : (verifySignatureSE md5 sha1 sha256 b64 v p).1.isPanic = false := by
+  rw [verify_echo_eq]; exact verify_total md5 sha1 sha256 b64 v p
+
+/-- the slice the code had BEFORE fix d429c1f (`&signature[0..5]`, a fixed bound) panics on a short signature; the
+bound `len.min(5)` does not -/
+example : sliceTo [1, 2, 3] 5 = .panic "slice-end-out-of-range" ∧ echoSignature [1, 2, 3] = .ok (3, [1, 2, 3])
+    ∧ echoSignature [1, 2, 3, 4, 5, 6, 7] = .ok (7, [1, 2, 3, 4, 5]) ∧ echoSignature [] = .ok (0, []) := by decide
+
 /-- **nothing to verify ⇒ error without consulting the verifier**: an OPENPGP array with zero entries, or no OPENPGP
 string array and none of RSA / DSA / PGP readable as binary (absent or of another data type) -/
 theorem verify_no_sig_is_error (v : Verifier) (p : Package)
